@@ -20,7 +20,8 @@ func init() {
 		ID: "C16",
 		Rule: "FC monitor over batch 1..6 x features 1..6 x outputs 1..6 (all 216 size triples, several histories each): the layer is built with NewFC and custom non-uniform initializers (or the defaults), then a history of 1-4 parameter replacements through Weights() pointers - pointers taken before the first Forward, after it, or freshly each time - interleaved with Forward calls; every Forward result is compared with y[b][o] = W[o]*sum_d x[b][d] + B[o] for the parameters that are current by then; row independence is checked by perturbing one input row; Weights() must dereference to the tensors last written. " +
 			"Then BackPropagate(y*G) with random non-uniform G: gradients of W, B and a tracked input against dW[o] = sum_b g[b][o] sum_d x[b][d], dB[o] = sum_b g[b][o], dx[b][d] = sum_o g[b][o] W[o], with the parameters' shapes. For batch > 1 W and B are expanded over the batch: a mismatch is attributed to the recorded finding only if every gradient equals the reference with BroadcastRule=Avg; batch 1 must be exact. Default initializers: Weight within +-sqrt(6/(in+out)), Bias zero, both tracked. " +
-			"Non-trivial: W and B non-uniform and (batch > 1 or outputs > 1); distinct = (batch, features, outputs, pointer discipline, number of replacements, tracked input). Later additions: feature or batch sizes 127..1025; the batch size changes between Forward calls on one layer; half of the histories call Forward through a method value bound once; one initializer object for Weight and Bias of two layers; n Forward calls followed by n BackPropagate calls (gradient accumulation); the config struct and its map overwritten after construction.",
+			"Non-trivial: W and B non-uniform and (batch > 1 or outputs > 1); distinct = (batch, features, outputs, pointer discipline, number of replacements, tracked input). Later additions: feature or batch sizes 127..1025; the batch size changes between Forward calls on one layer; half of the histories call Forward through a method value bound once; one initializer object for Weight and Bias of two layers; n Forward calls followed by n BackPropagate calls (gradient accumulation); the config struct and its map overwritten after construction." +
+			" Round 4: between the layer's output and the weighting sits a head: none, Flatten(1) keeping the shape, Reshape to the same shape, a squared error or the MSE component against targets that some outputs fit exactly, Tanh.",
 		Assumptions: []string{"forward values compared within 1e-12 relative (+1e-12 absolute x magnitude of the summed terms)"},
 		FloorQuick:  1500, FloorThor: 5000,
 		Run: runC16,
@@ -197,16 +198,73 @@ func c16History(k *fw.K, B, D, O int) {
 	if !ok {
 		return
 	}
-	g := randG(k, []int{B, O})
-	if p := call(func() { err = weightedBackprop(ry, g) }); p != nil || err != nil {
-		k.Failf("BackPropagate through FC failed: panic=%v err=%v", p, err)
+	// the layer's output goes through a short "head" before the weighted back-propagation: nothing, a shape-preserving
+	// Flatten(1) / Reshape (the usual "flatten to [batch, -1]" on an already 2-D activation), a squared error or the MSE
+	// component against targets that some outputs fit EXACTLY (residual exactly 0), or Tanh
+	prog := ref.Prog{
+		{Op: "leaf", Shape: x.Shape, Data: x.Data, Tracked: trackX},
+		{Op: "leaf", Shape: curW.Shape, Data: curW.Data, Tracked: true},
+		{Op: "leaf", Shape: curB.Shape, Data: curB.Data, Tracked: true},
+		{Op: "fc", In: []int{0, 1, 2}},
+	}
+	head := k.Rng.Intn(6)
+	exactTargets := func(shape []int) ref.Instr {
+		yv, _ := rt.Read(ry)
+		t := RandT(k.Rng, shape, -2, 2)
+		for i := range t.Data {
+			if k.Rng.Intn(2) == 0 {
+				t.Data[i] = yv.Data[i] // fitted exactly
+			}
+		}
+		return ref.Instr{Op: "leaf", Shape: shape, Data: t.Data}
+	}
+	switch head {
+	case 1:
+		prog = append(prog, ref.Instr{Op: "flatten", In: []int{3}, Dim: 1})
+	case 2:
+		prog = append(prog, ref.Instr{Op: "reshape", In: []int{3}, Shape: []int{B, O}})
+	case 3:
+		prog = append(prog, exactTargets([]int{B, O}), ref.Instr{Op: "sub", In: []int{3, 4}}, ref.Instr{Op: "pow", In: []int{5}, F: 2})
+	case 4:
+		prog = append(prog, ref.Instr{Op: "flatten", In: []int{3}, Dim: 0}, exactTargets([]int{B * O}), ref.Instr{Op: "mse", In: []int{4, 5}})
+	case 5:
+		prog = append(prog, ref.Instr{Op: "tanh", In: []int{3}})
+	}
+	k.Count(fmt.Sprintf("backprops_head_%s", []string{"none", "flatten(1) keeping the shape", "reshape to the same shape", "squared error with exact fits", "MSE with exact fits", "tanh"}[head]), 1)
+	vals, err := prog.Eval()
+	if err != nil {
+		k.Failf("harness: %v", err)
 		return
 	}
-	in := ref.Instr{Op: "fc"}
+	g := randG(k, vals[len(prog)-1].Shape)
+	prog = append(prog, ref.Instr{Op: "leaf", Shape: g.Shape, Data: g.Data}, ref.Instr{Op: "mul", In: []int{len(prog) - 1, len(prog)}})
+	root := len(prog) - 1
+	if vals, err = prog.Eval(); err != nil {
+		k.Failf("harness: %v", err)
+		return
+	}
+	pre := fc.Weights()
+	ts := []tensor.Tensor{rx, *pre[0].Value, *pre[1].Value, ry}
+	if p := call(func() {
+		for i := 4; i < len(prog) && err == nil; i++ {
+			xs := make([]tensor.Tensor, len(prog[i].In))
+			for q, j := range prog[i].In {
+				xs[q] = ts[j]
+			}
+			var t tensor.Tensor
+			t, err = rt.Exec(prog[i], xs)
+			ts = append(ts, t)
+		}
+		if err == nil {
+			err = tensor.BackPropagate(ts[root])
+		}
+	}); p != nil || err != nil {
+		k.Failf("head %d / BackPropagate through FC failed: panic=%v err=%v", head, p, err)
+		return
+	}
 	xs := []*ref.T{x, curW, curB}
-	y, _ := ref.FC(x, curW, curB)
-	want := ref.VJP(in, xs, y, g, ref.RuleSum)
-	avg := ref.VJP(in, xs, y, g, ref.RuleAvg)
+	want := prog.Grad(vals, root, nil, ref.RuleSum)[:3]
+	avg := prog.Grad(vals, root, nil, ref.RuleAvg)[:3]
 	fresh := fc.Weights()
 	tens := []tensor.Tensor{rx, *fresh[0].Value, *fresh[1].Value}
 	names := []string{"input", "Weight", "Bias"}
